@@ -171,6 +171,17 @@ CLAIMED['C13'] = (
     'structure obligations exhaust their (finite) trees; outputs obligations are explored (stated); known finding '
     'K-C13-decimal-js-unsafe-string is reported, not hidden',
     'symbolic execution of the real code (CrossHair primitives + z3) with behavioural probing and a validated mini JSON-Schema validator, concrete replay')
+CLAIMED['C15'] = (
+    'Symbolic execution of JsonSchemaParser (parse_type / parse_object / parse_array / parse_field / get_constraints / '
+    'get_attname) and of the types it builds, with the SCHEMA as the symbolic program: keyword presence bits, numeric keyword '
+    'values as solver integers, type / format / pattern / enum / const picks, property names from a hostile vocabulary '
+    '(non-identifiers, keywords, mapping methods, empty), required / additionalProperties / dependentRequired bits, '
+    'items / prefixItems / anyOf / oneOf / allOf nesting. Building may raise nothing but ConfigError, and that only for a '
+    'constraint set for which the harness finds no instance; every value the built type returns for a solver-chosen instance '
+    'under strict options must validate against the source schema (mini validator cross-checked against jsonschema).',
+    'numeric / string / enum-const trees are exhausted, array / object / composition are explored (stated); ten known findings '
+    '(refused satisfiable schemas, allOf / oneOf / null semantics, empty property name) are reported individually, not hidden',
+    'symbolic execution of the real code (CrossHair primitives + z3) with the schema as symbolic input and a validated mini JSON-Schema validator, concrete replay')
 NOT_APPLICABLE = {}
 
 def main():
